@@ -1160,7 +1160,12 @@ impl Relation {
                 if i > 0 {
                     builder.token(WHITESPACE.into(), " ");
                 }
-                builder.token(IDENT.into(), arch.as_str());
+                if let Some(arch) = arch.strip_prefix('!') {
+                    builder.token(NOT.into(), "!");
+                    builder.token(IDENT.into(), arch);
+                } else {
+                    builder.token(IDENT.into(), arch.as_str());
+                }
             }
             builder.token(R_BRACKET.into(), "]");
             builder.finish_node();
@@ -1431,14 +1436,31 @@ impl Relation {
     pub fn architectures(&self) -> Option<impl Iterator<Item = String> + '_> {
         let architectures = self.0.children().find(|n| n.kind() == ARCHITECTURES)?;
 
-        Some(architectures.children_with_tokens().filter_map(|node| {
-            let token = node.as_token()?;
-            if token.kind() == IDENT {
-                Some(token.text().to_string())
-            } else {
-                None
-            }
-        }))
+        // A negated architecture ("!amd64") is reported with its '!'
+        let mut negated = false;
+        Some(
+            architectures
+                .children_with_tokens()
+                .filter_map(move |node| {
+                    let token = node.as_token()?;
+                    match token.kind() {
+                        NOT => {
+                            negated = true;
+                            None
+                        }
+                        IDENT => {
+                            let arch = if negated {
+                                format!("!{}", token.text())
+                            } else {
+                                token.text().to_string()
+                            };
+                            negated = false;
+                            Some(arch)
+                        }
+                        _ => None,
+                    }
+                }),
+        )
     }
 
     /// Returns an iterator over the build profiles for this relation
@@ -1565,7 +1587,12 @@ impl Relation {
             if i > 0 {
                 builder.token(WHITESPACE.into(), " ");
             }
-            builder.token(IDENT.into(), arch);
+            if let Some(arch) = arch.strip_prefix('!') {
+                builder.token(NOT.into(), "!");
+                builder.token(IDENT.into(), arch);
+            } else {
+                builder.token(IDENT.into(), arch);
+            }
         }
         builder.token(R_BRACKET.into(), "]");
         builder.finish_node();
